@@ -540,54 +540,56 @@ func (u *Unit) poolGet(st *State, p Value, call *ast.CallExpr) []Value {
 		u.errorf("sync.Pool.Get: no New closure found in the package")
 		return nil
 	}
-	hit := u.ctx.Fresh("poolhit", SBool)
-	n0 := len(st.assume)
-	// miss: run the closure body in a copy of the state
-	ms := st.clone()
-	elem, res := u.runPoolNew(ms, p, cl)
+	// the two outcomes of sync.Pool.Get are verified as two separate runs of
+	// the unit (u.poolCase): a hit returns an item previously put and removes
+	// it; a miss runs the New closure.
+	u.sawPoolGet = true
+	if u.poolCase == "miss" {
+		elem, res := u.runPoolNew(st, p, cl)
+		if elem == nil {
+			return nil
+		}
+		return []Value{{K: KIface, Inner: &res}}
+	}
+	elem := u.poolElem()
 	if elem == nil {
+		u.errorf("sync.Pool.Get: cannot determine the element type of the pool")
 		return nil
 	}
-	// hit: some item of the pool, which is removed from it
-	hs := st.clone()
-	items := u.comp(hs, "items", SArr(SInt, SArr(SInt, SBool)))
+	items := u.comp(st, "items", SArr(SInt, SArr(SInt, SBool)))
 	it := u.ctx.Fresh("pooled", SInt)
-	hs.Assume(Select(Select(items, p.Term), it))
-	u.setComp(hs, "items", Store(items, p.Term, Store(Select(items, p.Term), it, False)))
-	for _, a := range hs.assume[n0:] {
-		st.assume = append(st.assume, Imp(hit, a))
-	}
-	for _, a := range ms.assume[n0:] {
-		st.assume = append(st.assume, Imp(Not(hit), a))
-	}
-	keys := map[string]bool{}
-	for k := range hs.mem {
-		keys[k] = true
-	}
-	for k := range ms.mem {
-		keys[k] = true
-	}
-	for _, k := range sortedKeysB(keys) {
-		a, aok := hs.mem[k]
-		b, bok := ms.mem[k]
-		if !aok {
-			a, aok = u.initMem[k]
-		}
-		if !bok {
-			b, bok = u.initMem[k]
-		}
-		if !aok || !bok {
-			continue
-		}
-		if a == b {
-			st.mem[k] = a
-		} else {
-			st.mem[k] = Ite(hit, a, b)
-		}
-	}
-	r := Value{K: KBuf, T: res.T, Elem: elem, Term: Ite(hit, it, res.Term)}
-	u.poolHit = hit
+	st.Assume(Select(Select(items, p.Term), it))
+	u.setComp(st, "items", Store(items, p.Term, Store(Select(items, p.Term), it, False)))
+	r := Value{K: KBuf, T: types.NewPointer(u.bufferTypeOf(elem)), Elem: elem, Term: it}
 	return []Value{{K: KIface, Inner: &r}}
+}
+
+func (u *Unit) bufferTypeOf(elem types.Type) types.Type {
+	obj := u.prog.Pkg.Types.Scope().Lookup("Buffer")
+	nt, err := types.Instantiate(nil, obj.Type(), []types.Type{elem}, false)
+	if err != nil {
+		return obj.Type()
+	}
+	return nt
+}
+
+// poolElem: the element type of the pool allocator owning the pool in this unit.
+func (u *Unit) poolElem() types.Type {
+	for _, v := range u.entry {
+		if v.K == KStruct {
+			t := v.T
+			if n, ok := t.(*types.Pointer); ok {
+				t = n.Elem()
+			}
+			if nn, ok := t.(*types.Named); ok && nn.TypeArgs() != nil && nn.TypeArgs().Len() == 1 {
+				return nn.TypeArgs().At(0)
+			}
+		}
+	}
+	if len(u.inst.Args) == 1 {
+		return u.inst.Args[0]
+	}
+	return nil
 }
 
 // runPoolNew executes the New closure of pool p in state ms.
@@ -600,24 +602,7 @@ func (u *Unit) runPoolNew(ms *State, p Value, cl *poolClosure) (types.Type, Valu
 	for k, v := range save {
 		sub[k] = v
 	}
-	// element type: the (single) type parameter of the enclosing function maps to
-	// the element type of the pool's owner in this unit
-	var elem types.Type
-	for _, v := range u.entry {
-		if v.K == KStruct {
-			if n, ok := v.T.(*types.Pointer); ok {
-				if nn, ok := n.Elem().(*types.Named); ok && nn.TypeArgs() != nil && nn.TypeArgs().Len() == 1 {
-					elem = nn.TypeArgs().At(0)
-				}
-			}
-			if nn, ok := v.T.(*types.Named); ok && nn.TypeArgs() != nil && nn.TypeArgs().Len() == 1 {
-				elem = nn.TypeArgs().At(0)
-			}
-		}
-	}
-	if elem == nil && len(u.inst.Args) == 1 {
-		elem = u.inst.Args[0]
-	}
+	elem := u.poolElem()
 	if elem == nil {
 		u.errorf("pool New: cannot determine element type")
 		return nil, Value{}
